@@ -329,3 +329,16 @@ def run(repo: Repo, rep: Report) -> None:
             writes = [w for w in writes if "__context_obj_map" not in norm(w)]
             rep.ob("C13.f-store-reads-dont-write", mem, "%s.%s" % (cls, mname), "no index write in %s.%s" % (cls, mname), not writes,
                    "read-only" if not writes else "store read method writes store state: %s" % norm(writes[0])[:80], node=writes[0] if writes else f)
+
+
+_run_before_borrow = run
+
+
+def run(repo: Repo, rep: Report) -> None:  # noqa: F811
+    _run_before_borrow(repo, rep)
+    from vlib.core import borrow
+
+    borrow(repo, rep, "C13", "C15", ('C15.a',))
+    borrow(repo, rep, "C13", "C11", ('C11.g',))
+    borrow(repo, rep, "C13", "C03", ('C03.m',))
+    borrow(repo, rep, "C13", "C08", ('C08.e',))
